@@ -270,7 +270,7 @@ pub fn shape(s: &S) -> Result<V, ()> {
                 let kk = key_shape(k)?;
                 let vv = shape(v)?;
                 if let Some(slot) = out.iter_mut().find(|(k2, _)| same(k2, &kk)) {
-                    slot.1 = vv;
+                    slot.1 = vv; // a later duplicate overwrites, as in serde_json (the commutation clause fixes this)
                 } else {
                     out.push((kk, vv));
                 }
